@@ -3,8 +3,8 @@
    harness/ocaml/tc/conv.ml converts them.
    Model sources: NV.Src.Syntax NV.Src.Types NV.Src.Typecheck NV.Src.TypecheckMatch *)
 From Coq Require Import ExtrOcamlBasic.
-From NV Require Import Src.Syntax Src.Types Src.Typecheck.
+From NV Require Import Src.Syntax Src.Types Src.Typecheck Src.TypecheckMatch.
 
 Extraction "tcmodel.ml"
   fd_name fd_params fd_ret fd_body fd_catches fd_catch_all
-  tc_program rule_id.
+  tc_program rule_id match_check catch_name_check.
